@@ -41,6 +41,8 @@ type shared struct {
 	complete *ast.DataMessage
 	bytes    []byte
 	smlText  string
+	cold     bool         // a cold process: fills use repeat counts no earlier call has used
+	variants [][]byte     // the decoder's inputs: the complete message with one value changed, by call position
 	wide     ast.ItemNode // the wide list that is part of all three shared objects
 	wideText string       // what it prints alone (computed on a twin)
 }
@@ -68,16 +70,33 @@ func newShared() *shared {
 	s.message = ast.NewDataMessage("msg", 1, 1, 2, "H->E", t)
 	// (more than a page of text, and never encoded or printed before the goroutines get it: nothing is warm.
 	// The bytes for the decoder come from a twin.)
+	long := make([]interface{}, 100) // an array of a hundred values (what a decoder might keep in a pooled scratch slice)
+	for k := range long {
+		long[k] = 1000 + k
+	}
 	mk := func() *ast.DataMessage {
 		return ast.NewHSMSDataMessage("c", 3, 5, 1, "H<-E",
-			ast.NewListNode(ast.NewASCIINode("text"), ast.NewFloatNode(8, 1.5, -2.25), ast.NewBinaryNode(1, 2, 255),
+			ast.NewListNode(ast.NewASCIINode("text"), ast.NewFloatNode(8, 1.5, -2.25), ast.NewBinaryNode(1, 2, 255), ast.NewUintNode(2, long...),
 				ast.NewASCIINode(strings.Repeat("0123456789abcdef", 320)), ast.NewListNode(ast.NewListNode(wide))), 77, []byte{9, 8, 7, 6})
 	}
 	s.complete = mk()
 	if h, err := hex.DecodeString(os.Getenv("VERIF_CONC_BYTES")); err == nil && len(h) > 0 {
 		s.bytes = h // a cold process gets them from its parent, so that it has not encoded anything yet
+		s.cold = true
 	} else {
 		s.bytes = mk().ToBytes()
+	}
+	// three inputs that differ in the long array: U2 1000.. / 2000.. / 3000.. (the first value's high byte)
+	at := strings.Index(string(s.bytes), string([]byte{0x03, 0xE8, 0x03, 0xE9}))
+	for v := 0; v < 3; v++ {
+		b := clone(s.bytes)
+		if at >= 0 {
+			for k := 0; k < 100; k++ {
+				val := 1000*(v+1) + k
+				b[at+2*k], b[at+2*k+1] = byte(val>>8), byte(val)
+			}
+		}
+		s.variants = append(s.variants, b)
 	}
 	return s
 }
@@ -85,7 +104,7 @@ func newShared() *shared {
 // fillCount: the repeat count a Fill call uses. In a cold process (conc-cold) it is above 255 and different for every
 // call position, so that concurrent fills need indices no earlier call of the process has used.
 func (s *shared) fillCount(c concCall) int {
-	if os.Getenv("VERIF_CONC_BYTES") == "" {
+	if !s.cold {
 		return 2
 	}
 	switch c.Obj {
@@ -104,7 +123,7 @@ func dig(v interface{}) string {
 }
 
 // exec runs one call. tag makes the names it introduces fresh (never seen by the process before).
-func (s *shared) exec(c concCall, tag string) string {
+func (s *shared) exec(c concCall, tag string, pos int) string {
 	item := func() ast.ItemNode {
 		switch c.Obj {
 		case "template":
@@ -171,7 +190,7 @@ func (s *shared) exec(c concCall, tag string) string {
 			}
 			out = dig([]interface{}{r, errs, warns})
 		case "HsmsParse":
-			m, ok := hsms.Parse(s.bytes)
+			m, ok := hsms.Parse(s.variants[pos%len(s.variants)])
 			if ok {
 				out = dig([]interface{}{ok, m.ToBytes(), fmt.Sprint(ast.VerifDataItem(m.(*ast.DataMessage)))})
 			} else {
@@ -200,6 +219,19 @@ func driverConc(c *Ctx) {
 		}
 		c.emit(i, J{"ev": "begin", "variant": 0, "calls": cj})
 		c.out.Flush()
+		// decodes that are refused inside the ast package (a W-bit on a reply, a NaN), before anything else: what they
+		// leave behind must not reach the calls that follow
+		for _, p := range [][]byte{
+			{0, 0, 0, 10, 0, 1, 0x81, 2, 0, 0, 0, 0, 0, 1},
+			append([]byte{0, 0, 1, 14 + 3, 0, 1, 0x81, 2, 0, 0, 0, 0, 0, 1, 0xA9, 0xC8}, make([]byte, 200)...), // W on a reply behind <U2[100]> ... (total length 10+3+200+... see below)
+			{0, 0, 0, 16, 0, 1, 1, 1, 0, 0, 0, 0, 0, 1, 0x91, 0x04, 0x7F, 0xC0, 0, 0},
+		} {
+			if len(p) > 14 && p[14] == 0xA9 {
+				n := len(p) - 4
+				p[0], p[1], p[2], p[3] = byte(n>>24), byte(n>>16), byte(n>>8), byte(n)
+			}
+			try(func() { hsms.Parse(p) })
+		}
 		s := newShared()
 		// observers are cheap: many more rounds for configurations made of observers only
 		rounds := rounds
@@ -223,9 +255,9 @@ func driverConc(c *Ctx) {
 				go func(k int) {
 					defer wg.Done()
 					<-gate
-					first := s.exec(cs[k], fmt.Sprintf("_%d_%d_%d", i, r, k))
+					first := s.exec(cs[k], fmt.Sprintf("_%d_%d_%d", i, r, k), k)
 					for rep := 1; rep < reps; rep++ {
-						if x := s.exec(cs[k], fmt.Sprintf("_%d_%d_%d", i, r, k)); x != first {
+						if x := s.exec(cs[k], fmt.Sprintf("_%d_%d_%d", i, r, k), k); x != first {
 							first = x + "(!=" + first + ")" // the same call gave two answers
 							break
 						}
@@ -243,8 +275,8 @@ func driverConc(c *Ctx) {
 		solo := make([]string, len(cs))
 		after := make([]string, len(cs))
 		for k := range cs {
-			solo[k] = twin.exec(cs[k], fmt.Sprintf("_%d_solo_%d", i, k))
-			after[k] = s.exec(cs[k], fmt.Sprintf("_%d_after_%d", i, k))
+			solo[k] = twin.exec(cs[k], fmt.Sprintf("_%d_solo_%d", i, k), k)
+			after[k] = s.exec(cs[k], fmt.Sprintf("_%d_after_%d", i, k), k)
 		}
 		bad := -1
 		for r := 0; r < rounds && bad < 0; r++ {
@@ -290,6 +322,14 @@ func driverConcCold(c *Ctx) {
 	}
 	out := make([]J, len(pick))
 	coldBytes := "VERIF_CONC_BYTES=" + hex.EncodeToString(newShared().bytes)
+	refs := make([][]string, len(pick))
+	for j, i := range pick {
+		ref := newShared()
+		ref.cold = true
+		for k, x := range rows[i] {
+			refs[j] = append(refs[j], ref.exec(x, fmt.Sprintf("_%d_ref_%d", i, k), k))
+		}
+	}
 	var wg sync.WaitGroup
 	sem := make(chan bool, 12)
 	for j := range pick {
@@ -329,6 +369,10 @@ func driverConcCold(c *Ctx) {
 				}
 				delete(last, "variant")
 				last["attempt"] = a
+				// the reference answers come from this process, which has made no concurrent call: state that the child's
+				// goroutines damaged for the whole child process would also be in the child's own reference
+				last["childsolo"] = last["solo"]
+				last["solo"] = refs[j]
 				out[j] = last
 				if fmt.Sprint(last["got"]) != fmt.Sprint(last["solo"]) || fmt.Sprint(last["after"]) != fmt.Sprint(last["solo"]) {
 					return
